@@ -24,7 +24,7 @@ def operand(draw, shape, nonzero=False):
     s = draw(st.sampled_from(SC))
     if nonzero:
         # |z| in [1e-3, 1e3] by construction (polar form); keeps denominators away from 0 without rejection
-        r = draw(st.lists(st.floats(-3.0, 3.0, allow_nan=False, width=64), min_size=k, max_size=k))
+        r = draw(st.lists(st.one_of(st.floats(-3.0, 3.0, allow_nan=False, width=64), st.floats(-12.0, 3.0, allow_nan=False, width=64)), min_size=k, max_size=k))   # |z| from 1e-12 to 1e3
         th = draw(st.lists(st.floats(-3.2, 3.2, allow_nan=False, width=64), min_size=k, max_size=k))
         if draw(st.integers(0, 3)) == 0:
             th = [0.0 if t >= 0 else float(np.pi) for t in th]      # purely real non-zero operand (+-|z|)
@@ -186,6 +186,8 @@ def cmp(out, ref, scale, what, rtol=1e-12):
     ok = np.all(err <= rtol * scale) if err.size else True
     require(bool(ok), what + ":value", f"{what}: differs from numpy complex arithmetic (max err {float(err.max()) if err.size else 0:.3e}, allowed {rtol}*scale)",
             got=str(z.tolist())[:400], ref=str(ref.tolist())[:400])
+    if len(HELD) < 40:
+        HELD.append((out, ref, scale, max(rtol, 1e-15), what))
 
 
 def mx(z):
@@ -193,7 +195,26 @@ def mx(z):
     return float(np.abs(z).max()) if z.size else 0.0
 
 
+HELD = []      # (output tensor, expected, scale, rtol, what) of every comparison of the current case
+
+
 def check(case):
+    del HELD[:]
+    r = check_once(case)
+    if not case["op"].startswith("reject") and case.get("a") is not None and len(case["a"]["re"]) <= 64:
+        for _ in range(4):        # five applications with identical operands in total: the kernel keeps no state ...
+            check_once(case)
+        for out, ref, scale, rtol, what in HELD:      # ... and a result handed out earlier is not altered by later calls
+            o = out.detach().double().numpy()
+            z = o[0] + 1j * o[1]
+            err = np.abs(z - ref)
+            require(bool(np.all(err <= rtol * scale)) if err.size else True, what + ":earlier-result-changed",
+                    f"{what}: a result returned by an earlier call no longer holds its value after later calls of the same function")
+    del HELD[:]
+    return r
+
+
+def check_once(case):
     from qucumber.utils import cplx
     op = case["op"]
     a = dec(case["a"]) if "a" in case else None
